@@ -254,9 +254,17 @@ def check_nonce_helper(rep, facts, hkey, base_idx, seq_idx, rule):
                     A, B = (x[2][0], x[3]), (y[2][0], y[3])
                     shape_ok = True
     if not shape_ok:
-        rep.undecided(rule, fn, 'xor-shape', pp(rt)[:300],
-                      'AeadNonce(from_exact_iter(base.iter().zip(buf.iter()).map(|(a,b)| a ^ b)).unwrap())', where(a))
-        return False
+        loop = _nonce_loop_form(rep, facts, a, rt, base_idx, rule)
+        if loop is None:
+            rep.undecided(rule, fn, 'xor-shape', pp(rt)[:300],
+                          'AeadNonce(from_exact_iter(base.iter().zip(buf.iter()).map(|(a,b)| a ^ b)).unwrap()) or `for i in 0..len { buf[i] ^= base[i] }`', where(a))
+            return False
+        l, init, enc_writer = loop
+        same_ty = a.body.local_ty(l) == a.body.local_ty(base_idx).lstrip('&').strip()
+        rep.check(is_zero_init(facts, init), rule, fn, 'buffer-zeroed', pp(init)[:120], 'zero-initialised buffer', where(a))
+        rep.check(same_ty, rule, fn, 'buffer-type', '%s vs %s' % (a.body.local_ty(l), a.body.local_ty(base_idx)),
+                  'counter buffer has the base nonce\'s type (same length)', where(a))
+        return _check_counter_writer(rep, facts, a, fn, l, enc_writer, base_idx, seq_idx, same_ty, rule)
     cr = closure_ret(facts, clos)
     xor_ok = (cr is not None and cr[0] == 'call' and cr[1] == 'core::ops::BitXor::bitxor'
               and {pp(cr[2][0]), pp(cr[2][1])} == {'p2.0', 'p2.1'})
@@ -292,7 +300,11 @@ def check_nonce_helper(rep, facts, hkey, base_idx, seq_idx, rule):
         rep.bad(rule, fn, 'single-writer', '; '.join(pp(('mem', l, init, (w,), ()))[:200] for w in writers),
                 'exactly one writer (the big-endian encoder) that executes on every path', where(a))
         return False
-    wsite, wpath, wdesc, _ = writers[0]
+    return _check_counter_writer(rep, facts, a, fn, l, writers[0], base_idx, seq_idx, same_ty, rule)
+
+
+def _check_counter_writer(rep, facts, a, fn, l, writer, base_idx, seq_idx, same_ty, rule):
+    wsite, wpath, wdesc, _ = writer
     enc_path, enc_args, enc_argidx, enc_info = wdesc[1], wdesc[2], wdesc[3], wdesc[4]
     enc_key = enc_info[3] if enc_info else None
     seqw, seqty = seq_adt_width(facts)
@@ -327,3 +339,51 @@ def check_nonce_helper(rep, facts, hkey, base_idx, seq_idx, rule):
     rep.check(pos_ok, rule, fn, 'counter-position', found,
               'the %d bytes ending at the end of the nonce buffer: buf[len-%d ..]' % (nbytes, nbytes), where(a, wsite))
     return True
+
+
+def _nonce_loop_form(rep, facts, a, rt, base_idx, rule):
+    """`for i in 0..len { buf.0[i] ^= base.0[i] }` after the counter has been written: -> (buf local, init, encoder writer)"""
+    fn = a.body.key
+    if rt[0] != 'mem' or rt[4]:
+        return None
+    l, init, writers = rt[1], rt[2], rt[3]
+    calls = [w for w in writers if w[2][0] == 'call']
+    stores = [w for w in writers if w[2][0] == 'store']
+    if len(calls) != 1 or len(stores) != 1 or not calls[0][3]:
+        return None
+    ssite, spath, sdesc, _ = stores[0]
+    if len(spath) != 2 or spath[0] != ('f', '0') or spath[1][0] != 'i':
+        return None
+    idx = spath[1][1]
+    v = sdesc[1]
+    # idx = Some payload of Iterator::next over Range { start: 0, end: len(base.0) | len(buf.0) }
+    okidx = False
+    if idx[0] == 'field' and idx[1] == '0' and idx[2][0] == 'variant' and idx[2][1] == 'Some' and idx[2][2][0] == 'call' and idx[2][2][1] == 'core::iter::Iterator::next':
+        nb = idx[2][2][3]
+        it = a.deref_val(a.arg_val(nb, 0), a.term_point(nb))
+        src = it[2] if it[0] == 'mem' else it
+        while src[0] == 'call' and src[1] == 'core::iter::IntoIterator::into_iter':
+            src = src[2][0]
+        if src[0] == 'agg' and src[2] == 'core::ops::Range::Range':
+            f = dict(zip(src[4], src[3]))
+            end = f.get('end')
+            okend = False
+            if end is not None and end[0] == 'len':
+                b, fs = addr_fields(end[1])
+                okend = (b == ('param', base_idx) or b == ('local', l)) and fs == ['0']
+            okidx = f.get('start') == ('const', 'usize', 0) and okend
+    if not okidx:
+        rep.bad(rule, fn, 'xor-loop-range', pp(idx)[:160], 'the loop index ranges over 0..nonce_len', where(a, ssite))
+        return None
+    okv = False
+    if v[0] == 'bin' and v[1] == 'BitXor':
+        ops = [v[2], v[3]]
+        own = [x for x in ops if x[0] == 'elem' and x[1] == idx]
+        other = [x for x in ops if x[0] == 'load' and x[1] == ('param', base_idx) and x[2] == (('f', '0'), ('i', idx))]
+        okv = len(own) == 1 and len(other) == 1
+    rep.check(okv, rule, fn, 'xor-loop-body', pp(v)[:200], 'buf[i] = buf[i] ^ base_nonce[i]', where(a, ssite))
+    rep.check(a.cfg.dominates(calls[0][0][0], ssite[0]), rule, fn, 'xor-after-counter', 'encoder at bb%d, xor loop at bb%d' % (calls[0][0][0], ssite[0]),
+              'the counter is written before the XOR loop', where(a, ssite))
+    if not okv:
+        return None
+    return l, init, calls[0]
